@@ -138,7 +138,7 @@ func CanonicalURL(r *rand.Rand, scheme string) string {
 	case "tel":
 		return "tel:+15551234"
 	case "data":
-		return Pick(r, []string{"data:image/png;base64,iVBORw0KGgo=", "data:image/gif;base64,R0lGODlhAQABAAAAACw="})
+		return Pick(r, []string{"data:image/png;base64,iVBORw0KGgo=", "data:image/gif;base64,R0lGODlhAQABAAAAACw=", "data:image/png;base64,", "data:image/webp;base64,UklGRg=="})
 	}
 	return scheme + "://" + Pick(r, canonHosts) + Pick(r, canonPaths) + Pick(r, canonQueries) + Pick(r, canonFrags)
 }
